@@ -671,7 +671,7 @@ def R4(ctx: Ctx) -> RuleResult:
         gs = norm_guards(pg)
         t = next((pol for g, pol in gs if _lit_test(g) == 'true'), None)
         if t is True:
-            if effs or flow not in ('continue', 'end'):
+            if [e for e in effs if isinstance(e, Call) and call_name(e) in ('append', 'extend', 'insert', 'add')] or flow not in ('continue', 'end'):
                 r.fail('_split_and_expr:true', 'a literal true conjunct has effects', fi.where)
             seen['true'] = True
             continue
